@@ -39,6 +39,21 @@ TailStep ==
     /\ IF E.bad = 0 /\ E.u = TailInt(H.atoms, <<E.i>>, <<E.x>>)
        THEN bad' = bad ELSE PrintT(<<"VIOL", Id, ln, "MarginalTailIntegral", H.kind>>) /\ bad' = bad + 1
     /\ ln' = ln + 1 /\ UNCHANGED <<tid, fin>>
+\* REAL copulas over real margins, numbers quantised to 1e-7 (thin clauses, slack in quanta)
+Abs(x) == IF x < 0 THEN -x ELSE x
+Tol == 30
+RealStep ==
+    /\ More /\ E.e = "Real"
+    /\ LET checks == IF E.sub = "rect"
+                     THEN << <<"NonNegative", E.nd >= -Tol /\ E.fast >= -Tol>>,
+                             <<"FastPathAgrees", Abs(E.nd - E.fast) <= Tol>>,
+                             <<"Additive", E.split = 0 \/ (Abs(E.fast - E.left - E.right) <= Tol /\ E.left >= -Tol /\ E.right >= -Tol)>>,
+                             <<"MarginConsistency", E.hasmarg = 0 \/ Abs(E.fast - E.marg) <= Tol>> >>
+                     ELSE << <<"InverseTailIntegral", Abs(E.back - E.x) <= Tol /\ E.sidepos = E.invpos>> >>
+           failed == SelectSeq(checks, LAMBDA c : ~c[2])
+       IN IF failed = <<>> THEN bad' = bad
+          ELSE (\A i \in 1..Len(failed) : PrintT(<<"VIOL", Id, ln, failed[i][1], H.kind>>)) /\ bad' = bad + 1
+    /\ ln' = ln + 1 /\ UNCHANGED <<tid, fin>>
 RaiseStep ==
     /\ More /\ E.e = "Raise"
     /\ PrintT(<<"REJECT", Id, ln, "Raise", H.kind>>)
@@ -47,6 +62,6 @@ Finish ==
     /\ ~fin /\ ln = Len(T) + 1
     /\ IF bad = 0 THEN PrintT(<<"ACCEPT", Id>>) ELSE TRUE
     /\ fin' = TRUE /\ UNCHANGED <<tid, ln, bad>>
-TraceNext == RectStep \/ SplitStep \/ TailStep \/ RaiseStep \/ Finish
+TraceNext == RectStep \/ SplitStep \/ TailStep \/ RealStep \/ RaiseStep \/ Finish
 TraceSpec == TraceInit /\ [][TraceNext]_tvars
 =============================================================================
